@@ -132,6 +132,40 @@ class Summary:
     def events_of(self, kind):
         return [e for e in self.events if e.kind == kind]
 
+    def assuming_assertions(self):
+        """A view of the summary in which ``assert`` statements are taken to hold: the asserted conditions no longer guard later events and
+        loops, and the AssertionError exits disappear from the return term.  (A failing assertion raises - it never changes a result silently;
+        rules about totality must not use this view.)"""
+        from .terms import strip_all
+        asserted = {strip_all(e["cond"]) for e in self.events if e.kind == "assert"}
+        if not asserted:
+            return self
+
+        def cx(c):
+            return Ctx(tuple((g, pol) for g, pol in c.guards if not (pol and strip_all(g) in asserted)), c.loops, c.func, c.tries)
+
+        def is_assert_raise(t):
+            t = strip(t)
+            return head(t) == "raise" and head(strip(t[1])) == "call" and strip(strip(t[1])[1]) == ("glob", "builtins.AssertionError")
+
+        def clean(t):
+            if not isinstance(t, tuple):
+                return t
+            t = tuple(clean(x) for x in t)
+            if head(t) == "ite" and is_assert_raise(t[3]):
+                return t[2]
+            if head(t) == "ite" and is_assert_raise(t[2]):
+                return t[3]
+            if head(t) == "loopret" and strip(t[2]) == ("next",):
+                return t[3]
+            return t
+        events = [Event(e.kind, cx(e.ctx), e.node, e.data, e.seq) for e in self.events]
+        loops = LoopTable()
+        for lid in dict.keys(self.loops):
+            lp = dict.__getitem__(self.loops, lid)
+            dict.__setitem__(loops, lid, LoopInfo(lp.lid, lp.kind, lp.iterable, lp.elem, lp.target, lp.init, lp.update, cx(lp.ctx), lp.node, lp.tree, lp.target_names, lp.breaks))
+        return Summary(self.func, self.params, self.tree, clean(self.ret), events, loops, self.env, self.unbound, self.is_generator)
+
     def mapped(self, fn):
         """A copy of the summary with ``fn`` (term -> term) applied to every term: events, guards, loops, return value, final environment."""
         def rv(v):
